@@ -24,9 +24,10 @@ void h_host_verify_sem(void) {
     ret = secp256k1_anti_exfil_host_verify(&ctx, &sig, msg32, &pk, host32, &op);
 
     __CPROVER_assert(ret == 0 || ret == 1, "C15 host_verify.sem: returns 0 or 1");
-    __CPROVER_assert(g_vc_n == 1 && g_vc_sig == &sig && g_vc_data == host32 && g_vc_open == &op, "C15 host_verify.sem: the commitment check runs once on (sig, host_data32, opening)");
+    /* usage of the two oracles is only demanded on the accepting path: the order in which the two checks run, and
+     * whether the second runs after the first failed, is not part of the property */
     if (ret == 1) {
-        __CPROVER_assert(g_vc_v == 1, "C15 host_verify.sem: accepts only if the commitment check accepted");
+        __CPROVER_assert(g_vc_n >= 1 && g_vc_sig == &sig && g_vc_data == host32 && g_vc_open == &op && g_vc_v == 1, "C15 host_verify.sem: accepts only if the commitment check ran on (sig, host_data32, opening) and accepted");
         __CPROVER_assert(sv <= half, "C15 host_verify.sem: accepts only low-S signatures (what ordinary ECDSA verification accepts)");
         __CPROVER_assert(qx != 0 && g_sv_n == 1 && g_sv_v0 == 1, "C15 host_verify.sem: accepts only on a positive core ECDSA verdict");
     }
@@ -35,7 +36,8 @@ void h_host_verify_sem(void) {
         __CPROVER_assert(sval(&g_sv_m0) == (mv >= n ? mv - n : mv), "C15 host_verify.sem: the core verifier sees msg32 mod n");
         __CPROVER_assert(fval(&g_sv_q0.x) == qx && fval(&g_sv_q0.y) == qy && g_sv_q0.infinity == 0, "C15 host_verify.sem: the core verifier sees exactly the public key");
     }
-    if (g_vc_v == 1 && sv <= half && qx != 0) __CPROVER_assert(g_sv_n == 1 && ret == g_sv_v0, "C15 host_verify.sem: with a passing commitment check and a low-S signature the result is the core ECDSA verdict");
+    if (g_vc_n >= 1 && g_vc_v == 1 && g_sv_n >= 1 && g_sv_v0 == 1 && sv <= half && qx != 0) __CPROVER_assert(ret == 1, "C15 host_verify.sem: accepts whenever the commitment check and ordinary ECDSA verification both accept");
+    if (ret == 0) __CPROVER_assert((g_vc_n >= 1 && g_vc_v == 0) || sv > half || qx == 0 || (g_sv_n >= 1 && g_sv_v0 == 0), "C15 host_verify.sem: rejects only because the commitment check or ordinary ECDSA verification rejects");
     if (ret == 1) REACH("host_verify.sem accepts");
     if (ret == 0 && g_vc_v == 1 && sv > half) REACH("host_verify.sem rejects high S");
     if (ret == 0 && g_vc_v == 0) REACH("host_verify.sem commitment rejects");
